@@ -42,6 +42,68 @@ def ref_add(schema, mark_key, marks):
     return tuple(out)
 
 
+def plain_inline(ty):
+    """the type's content automaton is a single state that is a valid end (inline* / text* / (a | b)* …)"""
+    m = ty.content_match
+    return m.valid_end and all(e.next is m for e in m.next)
+
+
+def retype_children_problem(old, new, ty):
+    """set_block_type keeps the tree above the textblocks; a converted textblock keeps — in order — exactly the children
+    the new type can hold (the documented left-to-right walk over its content automaton), and gets filler nodes only
+    when those alone do not end at a valid end.  Returns a description of the first deviation, or None."""
+    def shape(n):
+        return ("text", n.text.replace("\n", " ")) if n.is_text else (n.type.name,)
+
+    def walk(o, n, path):
+        if o.is_textblock:
+            if n.type is o.type and not (o.type is ty):
+                same = o.child_count == n.child_count and all(shape(o.child(i)) == shape(n.child(i)) for i in range(o.child_count))
+                return None if same else f"{path}: children of an unconverted textblock changed"
+            if n.type is not ty and n.type is not o.type:
+                return f"{path}: textblock became {n.type.name}"
+            if n.type is o.type:
+                keep = [shape(o.child(i)) for i in range(o.child_count)]
+                got = [shape(n.child(i)) for i in range(n.child_count)]
+                return None if keep == got else f"{path}: children changed although the type did not"
+            match, keep = ty.content_match, []
+            for i in range(o.child_count):
+                c = o.child(i)
+                m2 = match.match_type(c.type)
+                if m2 is not None:
+                    keep.append(shape(c))
+                    match = m2
+            got = [shape(n.child(i)) for i in range(n.child_count)]
+            # adjacent kept text nodes may have been joined
+            def joined(xs):
+                out = []
+                for x in xs:
+                    if out and x[0] == "text" and out[-1][0] == "text":
+                        out[-1] = ("text", out[-1][1] + x[1])
+                    else:
+                        out.append(x)
+                return out
+            keep_text = "".join(x[1] for x in keep if x[0] == "text")
+            got_text = "".join(x[1] for x in got if x[0] == "text")
+            keep_leaves = [x for x in keep if x[0] != "text"]
+            got_leaves = [x for x in got if x[0] != "text"]
+            if match.valid_end:
+                if keep_text != got_text or keep_leaves != got_leaves:
+                    return f"{path}: converted block has children {got}, the new type can hold exactly {joined(keep)}"
+            else:
+                if keep_text != got_text or got_leaves[:len(keep_leaves)] != keep_leaves:
+                    return f"{path}: converted block lost children it can hold: {got} vs {joined(keep)} (+ filler)"
+            return None
+        if o.type is not n.type or o.child_count != n.child_count:
+            return f"{path}: structure above the textblocks changed"
+        for i in range(o.child_count):
+            r = walk(o.child(i), n.child(i), path + [i]) if not o.child(i).is_text else None
+            if r:
+                return r
+        return None
+    return walk(old, new, [])
+
+
 def contexts(toks, top):
     out, st = [], [top]
     for t in toks:
@@ -130,8 +192,11 @@ def run(ctx):
                     ctx.violation(name + "-internal", f"{name} died with an internal error: {val}", replay)
                     continue
                 if st != "ok":
-                    if name == "set_block_type":
-                        # a textblock type and in-range, pair-aligned positions: nothing may be rejected
+                    if name == "set_block_type" and plain_inline(args[2]):
+                        # an ordinary textblock type (any inline content in any order, possibly empty) and in-range,
+                        # pair-aligned positions: nothing may be rejected.  (Types that need a particular first child or at
+                        # least one child can make the documented algorithm give up with a TransformError; the property
+                        # does not promise success there.)
                         ctx.violation("set_block_type-raises", f"set_block_type raised {val}", replay)
                     continue
                 old, new = doc_tokens(d), doc_tokens(tr.doc)
@@ -196,7 +261,9 @@ def run(ctx):
                         inner_new = new[pos + 1:pos + n.node_size - 1]
                         if len(new) != len(old) or inner_old != inner_new or old[:pos] != new[:pos] or old[pos + n.node_size:] != new[pos + n.node_size:]:
                             bad = "children or surroundings of the retyped node changed"
-                elif name == "set_block_type" and bundled:
+                elif name == "set_block_type":
+                    bad = retype_children_problem(d, tr.doc, args[2])
+                if bad is None and name == "set_block_type" and bundled:
                     ty = args[2]
                     allows_text = ty.content_match.match_type(schema.nodes["text"]) is not None
                     if allows_text:
